@@ -56,7 +56,7 @@ FOCUS = {
 }
 
 
-# reach probes: counters that must be non-zero after a batch of >= 1500 runs, otherwise the check
+# reach probes: counters that must be non-zero after a batch of >= 4000 runs, otherwise the check
 # is a harness error (a probe stuck at zero means the workload no longer reaches what it claims)
 CORE_REACH = ['add.first.pt', 'add.gap.pt', 'add.adjacent.sp', 'add.adjacent-to-pt.pt', 'add.overlap.sp',
               'add.overlap-samestart.sp', 'add.contained.pt', 'add.contained.sp', 'add.contained-dup.sp',
